@@ -56,6 +56,13 @@ def r_label_recovery(repo, rep, R='R12.4'):
               % (n_match, sum(1 for m in match_ret if m)))
     rep.check(not unk_early, R, w, 'guess:unk-after-loop', 'the unknown label is produced only after all results were tried',
               'returns %s before the loop is exhausted' % unk_early)
+    # label recovery is a pure function of (rules, target, x, y): nothing is remembered between calls
+    from .. import rules_unif as ru
+    pur = ru.Purity(repo, rep, R)
+    mutated = pur.analyse(mod, fn)
+    deco = [src(d) for d in fn.decorator_list]
+    rep.check(not mutated and not deco, R, w, 'guess:pure', 'guess_combinator_by_triplet keeps no state between calls (no memo, no decorator)',
+              'guess_combinator_by_triplet modifies %s / is decorated with %s: the label of a node would depend on earlier calls' % (sorted(mutated), deco))
     unk = [st.ret for st, out in paths if out == 'return' and st.ret and st.ret[0] == 'call' and st.ret[1] == N('CombinatorResult')]
     ok = bool(unk) and all(dict(u[3]).get('cat') == N(target) for u in unk)
     rep.check(ok, R, w, 'guess:unk-cat', 'the unknown result keeps the node\'s own category', 'the <unk> result does not carry the target category')
@@ -154,6 +161,7 @@ def check(repo, rep, tier):
     rep.rule('R12.3', 'Tree.make_binary sites: symbol/head from the same result; result = guess(rules, cat, left.cat, right.cat)')
     rep.rule('R12.4', 'guess_combinator_by_triplet returns the matching loop variable; <unk> only after exhaustion')
     rc.r_rule_ids(m, rep, 'R12.1')
+    rc.r_items_immutable(m, rep, 'R12.1')
     rc.r_cache(m, rep, 'R12.2')
     rc.r_backpointers(m, rep, 'R12.1')
     ti = rp.r_category_table(repo, rep, 'R12.2')
